@@ -98,18 +98,18 @@ def strtoldNumber (s : Bytes) : Lexed :=
     | 0x2d :: r => (true, r)
     | 0x2b :: r => (false, r)
     | _ => (false, s1)
-  if startsWithCI s2 "infinity".toUTF8.toList then
+  if startsWithCI s2 [0x69, 0x6e, 0x66, 0x69, 0x6e, 0x69, 0x74, 0x79] then
     if (s2.drop 8).isEmpty then .inf neg else .invalid
-  else if startsWithCI s2 "inf".toUTF8.toList then
+  else if startsWithCI s2 [0x69, 0x6e, 0x66] then
     if (s2.drop 3).isEmpty then .inf neg else .invalid
-  else if startsWithCI s2 "nan".toUTF8.toList then
+  else if startsWithCI s2 [0x6e, 0x61, 0x6e] then
     match s2.drop 3 with
     | [] => .nan
     | 0x28 :: r => match dropWhile isAlnumU r with
       | [0x29] => .nan
       | _ => .invalid
     | _ => .invalid
-  else if startsWithCI s2 "0x".toUTF8.toList &&
+  else if startsWithCI s2 [0x30, 0x78] &&
       (match s2.drop 2 with
        | b :: _ => (hexVal b).isSome
        | [] => false) then
@@ -133,7 +133,12 @@ structure Dec where
   scale : Nat
 deriving DecidableEq, Repr
 
-def natDigits (n : Nat) : Bytes := (toString n).toUTF8.toList
+/-- decimal digits of `n`, most significant first -/
+def natDigitsAux : Nat → Nat → Bytes → Bytes
+  | 0, _, acc => acc
+  | f + 1, n, acc => if n < 10 then UInt8.ofNat (48 + n) :: acc else natDigitsAux f (n / 10) (UInt8.ofNat (48 + n % 10) :: acc)
+
+def natDigits (n : Nat) : Bytes := natDigitsAux (n + 1) n []
 
 /-- strip trailing zeros of the fraction: smallest scale representing the same value -/
 def Dec.normalize : Dec → Dec
@@ -172,5 +177,37 @@ def fmtC (x : Dec) : Bytes :=
       let t' := if d.scale == 1 then t
                 else if r > half || (r == half && p % 2 == 0 && t % 2 == 1) then t + 1 else t
       sign ++ natDigits (t' / 10) ++ [0x2e] ++ natDigits (t' % 10)
+
+/-! ## floor / ceiling / round on exact decimals -/
+
+def Dec.ipart (d : Dec) : Nat := d.mant / 10 ^ d.scale
+def Dec.isInt (d : Dec) : Bool := d.mant % 10 ^ d.scale == 0
+def sgn (neg : Bool) (n : Nat) : Int := if neg then -(n : Int) else (n : Int)
+
+/-- C cast `(long long)x`: truncation toward zero -/
+def truncC (d : Dec) : Int := sgn d.neg d.ipart
+
+/-- REC §4.4 `floor`: the largest integer not greater than the argument -/
+def floorRec (d : Dec) : Int := if d.neg && !d.isInt then -(d.ipart : Int) - 1 else sgn d.neg d.ipart
+/-- libyang `xpath_floor`: `(long long)x` -/
+def floorC (d : Dec) : Int := truncC d
+
+/-- REC §4.4 `ceiling`: the smallest integer not less than the argument -/
+def ceilRec (d : Dec) : Int := if !d.neg && !d.isInt then (d.ipart : Int) + 1 else sgn d.neg d.ipart
+/-- libyang `xpath_ceiling`: `(long long)x != x ? (long long)x + 1 : x` -/
+def ceilC (d : Dec) : Int := if !d.isInt then truncC d + 1 else truncC d
+
+/-- `d + 1/2` -/
+def Dec.addHalf (d : Dec) : Dec :=
+  -- common scale d.scale + 1: d = ±(10 * mant) / 10^(scale+1), 1/2 = 5 * 10^scale / 10^(scale+1)
+  let m := 10 * d.mant
+  let h := 5 * 10 ^ d.scale
+  if !d.neg then ⟨false, m + h, d.scale + 1⟩
+  else if m ≤ h then ⟨false, h - m, d.scale + 1⟩ else ⟨true, m - h, d.scale + 1⟩
+
+/-- REC §4.4 `round`: the integer closest to the argument, ties toward positive infinity = `floor(x + 0.5)` -/
+def roundRec (d : Dec) : Int := floorRec d.addHalf
+/-- libyang `xpath_round` (outside `[-0.5, 0]`): `xpath_floor(x + 0.5)`, i.e. truncation -/
+def roundC (d : Dec) : Int := floorC d.addHalf
 
 end LyModel.XPath.NumLex
